@@ -326,6 +326,103 @@ example : (run o Cfg.gen {} [.obsReq [g] ⟨body, [1], g⟩, .heartbeat [g] [80]
     .heartbeat [g] [80] ⟨body, [1], g⟩]).forwarded = [⟨2, [9]⟩] ∧
     keys (run o Cfg.gen {} [.heartbeat [g] [80] ⟨body, [3], x⟩, .heartbeat [g] [80] ⟨body, [1], g⟩]).table = [g] := by decide
 
+/-! ### an entry under an address only if something that address signed was received -/
+
+/-- What can put an entry under address `a` during a history: a gossiped heartbeat whose signature — over the digest of the
+heartbeat-domain pre-image — RECOVERS to `a` (whatever its envelope or its body say about who sent it), or the node's own
+heartbeat for `a`. -/
+def SignedFor (o : Oracles) (cfg : Cfg) (ops : List Op) (a : Addr) : Prop :=
+  ∃ op ∈ ops, (∃ gs src s, op = .heartbeat gs src s ∧ o.recover (o.H (cfg.hbPrefix ++ s.body)) s.sig = some a) ∨
+    (∃ p hb, op = .own a p hb)
+
+/-- **Per address.**  After any history, an address has an entry in the heartbeat table only if it had one before or a
+heartbeat whose signature recovers to that very address was received during the history (or the node filed its own).  A
+member signing a heartbeat that NAMES another member or an outsider creates nothing under the named address. -/
+theorem c03_entry_only_for_signer (o : Oracles) (cfg : Cfg) (ops : List Op) (n : Node) (a : Addr)
+    (h : a ∈ keys (run o cfg n ops).table) : a ∈ keys n.table ∨ SignedFor o cfg ops a := by
+  induction ops generalizing n with
+  | nil => exact Or.inl h
+  | cons op ops ih =>
+    rcases ih (step o cfg n op) h with h1 | ⟨op', hm, hop⟩
+    · have : a ∈ keys n.table ∨ SignedFor o cfg [op] a := by
+        cases op with
+        | cleanup now => left; simpa [step, keys_cleanup] using h1
+        | obsReq gs s =>
+          left
+          simp only [step] at h1
+          split at h1 <;> exact h1
+        | own a' p hb =>
+          simp only [step] at h1
+          cases hs : setHeartbeat cfg.cap n.table a' p hb with
+          | none => left; simpa [hs] using h1
+          | some t' =>
+            obtain ⟨_, rfl⟩ := (setHeartbeat_some_iff ..).1 hs
+            simp only [hs, Option.getD_some] at h1
+            rcases keys_stored h1 with rfl | h1
+            · right; exact ⟨_, List.mem_singleton.2 rfl, Or.inr ⟨p, hb, rfl⟩⟩
+            · left; exact h1
+        | heartbeat gs src s =>
+          simp only [step] at h1
+          cases hr : (processHeartbeat o cfg false gs n.table src s).2 with
+          | error e => left; rwa [c03_reject_noop o cfg false gs n.table src s e hr] at h1
+          | ok hb =>
+            have hacc : processHeartbeat o cfg false gs n.table src s = ((processHeartbeat o cfg false gs n.table src s).1, .ok hb) := by
+              rw [← hr]
+            obtain ⟨_, _, hrec, _, _, ht⟩ := (c03_hb_accept_iff ..).1 hacc
+            rw [ht] at h1
+            rcases keys_stored h1 with rfl | h1
+            · right; exact ⟨_, List.mem_singleton.2 rfl, Or.inl ⟨gs, src, s, rfl, hrec⟩⟩
+            · left; exact h1
+      rcases this with h2 | ⟨op', hm, hop⟩
+      · exact Or.inl h2
+      · right; exact ⟨op', by rw [List.mem_singleton.1 hm]; exact List.mem_cons_self, hop⟩
+    · right; exact ⟨op', List.mem_cons_of_mem _ hm, hop⟩
+
+-- `g` signs a heartbeat (signature `[1]`); the envelope of the second message names `g` but `x` signed it: no entry for `x`,
+-- and none for anybody else either
+example : keys (run o Cfg.gen {} [.heartbeat [g, x] [80] ⟨body, [1], g⟩, .heartbeat [g, x] [81] ⟨body, [3], g⟩]).table = [g] ∧
+    SignedFor o Cfg.gen [.heartbeat [g, x] [80] ⟨body, [1], g⟩] g := by
+  refine ⟨by decide, _, List.mem_singleton.2 rfl, Or.inl ⟨_, _, _, rfl, by decide⟩⟩
+
+/-! ### dropped messages leave no trace: what follows them is handled as if they had never arrived -/
+
+/-- a gossiped message the node drops in state `n` -/
+def Dropped (o : Oracles) (cfg : Cfg) (n : Node) : Op → Prop
+  | .heartbeat gs src s => ∃ e, (processHeartbeat o cfg false gs n.table src s).2 = .error e
+  | .obsReq gs s => ∃ e, processObsReq o cfg gs s = .error e
+  | _ => False
+
+/-- **No trace.**  A history that consists of dropped messages only — any number of them, whoever they name — leaves the node
+exactly as it was, so whatever arrives next (a genuine request of the guardian the forged ones named, say) is handled
+precisely as it would have been without them: same table, same requests forwarded. -/
+theorem c03_dropped_history_noop (o : Oracles) (cfg : Cfg) (ops : List Op) (n : Node)
+    (h : ∀ op ∈ ops, Dropped o cfg n op) : run o cfg n ops = n ∧ ∀ next, step o cfg (run o cfg n ops) next = step o cfg n next := by
+  have hrun : run o cfg n ops = n := by
+    induction ops with
+    | nil => rfl
+    | cons op ops ih =>
+      have hstep : step o cfg n op = n := by
+        have hd := h op List.mem_cons_self
+        cases op with
+        | heartbeat gs src s =>
+          obtain ⟨e, he⟩ := hd
+          simp only [step]
+          rw [c03_reject_noop o cfg false gs n.table src s e he]
+        | obsReq gs s =>
+          obtain ⟨e, he⟩ := hd
+          simp [step, he]
+        | own a p hb => exact hd.elim
+        | cleanup now => exact hd.elim
+      simp only [run]
+      rw [hstep]
+      exact ih (fun op' hm => h op' (List.mem_cons_of_mem _ hm))
+  exact ⟨hrun, fun next => by rw [hrun]⟩
+
+-- 130 forged requests and 130 forged heartbeats naming `g` (signed by the outsider `x`), then `g`'s genuine request: forwarded
+set_option maxRecDepth 20000 in
+example : (run o Cfg.gen {} (List.replicate 130 (.obsReq [g] ⟨body, [3], g⟩) ++ List.replicate 130 (.heartbeat [g] [80] ⟨body, [3], g⟩) ++
+    [.obsReq [g] ⟨body, [2], g⟩])).forwarded = [⟨2, [9]⟩] := by decide
+
 /-! ### domain separation (pre-image level: nothing is assumed about the digest function) -/
 
 /-- the signed bytes of a VAA signature: the 32-byte inner hash whose Keccak is the VAA digest -/
